@@ -454,3 +454,78 @@ func (r Raw) IsCondJump() bool { return r.Op&0x07 == clsJMP && r.Op != clsJMP|jJ
 // FromX converts golang.org/x/net/bpf raw instructions (anything with the
 // same four fields) into Raw; kept generic to avoid importing x/net here.
 func FromFields(op uint16, jt, jf uint8, k uint32) Raw { return Raw{op, jt, jf, k} }
+
+// SweepNr runs prog for every syscall number in [from, to] (inclusive) with the
+// other words of seccomp_data fixed, and calls mismatch(nr, got) whenever the
+// result differs from want(nr). want is called with strictly increasing nr. It
+// is a specialised loop for programs made of LD W ABS / Jcc K / JA / RET K (what
+// the compiler emits); any other instruction makes it return an error.
+func SweepNr(prog []Raw, w [16]uint32, from, to uint32, want func(nr uint32) uint32, mismatch func(nr, got uint32) bool) error {
+	for _, in := range prog {
+		switch in.Op {
+		case clsLD | szW | mABS:
+			if in.K%4 != 0 || in.K >= dataSize {
+				return fmt.Errorf("%w: load at offset %d", ErrExec, in.K)
+			}
+		case clsJMP | jJA, clsJMP | jJEQ | srcK, clsJMP | jJGT | srcK, clsJMP | jJGE | srcK, clsJMP | jJSET | srcK, clsRET | srcK:
+		default:
+			return fmt.Errorf("%w: opcode %#x not handled by the sweep", ErrExec, in.Op)
+		}
+	}
+	n := len(prog)
+	for nr := from; ; nr++ {
+		w[0] = nr
+		var a uint32
+		pc := 0
+		var ret uint32
+	exec:
+		for {
+			if pc >= n {
+				return fmt.Errorf("%w: pc %d outside program (nr %d)", ErrExec, pc, nr)
+			}
+			in := &prog[pc]
+			switch in.Op {
+			case clsLD | szW | mABS:
+				a = w[in.K/4]
+				pc++
+			case clsJMP | jJEQ | srcK:
+				if a == in.K {
+					pc += 1 + int(in.Jt)
+				} else {
+					pc += 1 + int(in.Jf)
+				}
+			case clsJMP | jJGT | srcK:
+				if a > in.K {
+					pc += 1 + int(in.Jt)
+				} else {
+					pc += 1 + int(in.Jf)
+				}
+			case clsJMP | jJGE | srcK:
+				if a >= in.K {
+					pc += 1 + int(in.Jt)
+				} else {
+					pc += 1 + int(in.Jf)
+				}
+			case clsJMP | jJSET | srcK:
+				if a&in.K != 0 {
+					pc += 1 + int(in.Jt)
+				} else {
+					pc += 1 + int(in.Jf)
+				}
+			case clsJMP | jJA:
+				pc += 1 + int(in.K)
+			case clsRET | srcK:
+				ret = in.K
+				break exec
+			}
+		}
+		if wv := want(nr); ret != wv {
+			if mismatch(nr, ret) {
+				return nil
+			}
+		}
+		if nr == to {
+			return nil
+		}
+	}
+}
